@@ -56,7 +56,20 @@ func main() {
 // worker: a batch of runs in one process
 // ---------------------------------------------------------------------------
 
+// CrossReplay names two worker configurations over the same runs whose
+// per-run outcome digests differ at Run.
+type CrossReplay struct {
+	Seed     uint64 `json:"seed"`
+	From     int    `json:"from"`
+	To       int    `json:"to"`
+	Run      int    `json:"run"`
+	Tier     string `json:"tier"`
+	EnvB     string `json:"env_b"`
+	ReverseB bool   `json:"reverse_order_b"`
+}
+
 type FoundViolation struct {
+	Cross      *CrossReplay `json:"cross,omitempty"`
 	Script     *Script     `json:"script"`
 	Violations []Violation `json:"violations"`
 	RaceLog    string      `json:"race_log,omitempty"`
@@ -116,6 +129,7 @@ func cmdWorker(args []string) int {
 	out := fs.String("out", "", "")
 	keep := fs.Int("keep", 4, "violating scripts to keep")
 	cold := fs.Int("cold", -1, "run index executed concurrent-phase first (default: -from)")
+	reverse := fs.Bool("reverse", false, "execute the runs in descending order (results are still indexed by run)")
 	fs.Parse(args)
 	debug.SetMaxStack(256 << 20)
 	w := &WorkerOut{Prop: *prop, Seed: *seed, From: *from, To: *to, Stats: newStats(), Strategies: map[string]int64{}, RaceBuild: vsimrt.RaceBuild,
@@ -124,7 +138,15 @@ func cmdWorker(args []string) int {
 	logPath := raceLogPath()
 	var logOff int64
 	big := *tier == "thorough"
-	for run := *from; run < *to; run++ {
+	n := *to - *from
+	w.Digests = make([]uint64, n)
+	w.Shapes = make([]uint64, n)
+	w.SchedHash = make([]uint64, n)
+	for k := 0; k < n; k++ {
+		run := *from + k
+		if *reverse {
+			run = *to - 1 - k
+		}
 		s, r := genScript(*prop, *seed, run, big)
 		coldRun := *from
 		if *cold >= 0 {
@@ -144,9 +166,9 @@ func cmdWorker(args []string) int {
 		w.Pool.Fresh += res.Pool.Fresh
 		w.Pool.Recycled += res.Pool.Recycled
 		w.Pool.CrossTask += res.Pool.CrossTask
-		w.Digests = append(w.Digests, res.Digest)
-		w.Shapes = append(w.Shapes, res.Shape)
-		w.SchedHash = append(w.SchedHash, res.SchedHash)
+		w.Digests[run-*from] = res.Digest
+		w.Shapes[run-*from] = res.Shape
+		w.SchedHash[run-*from] = res.SchedHash
 		w.Decisions += int64(len(res.Decisions))
 		if s.Strategy != "" {
 			w.Strategies[s.Strategy]++
